@@ -95,7 +95,8 @@ func stringToInt(ss string) (int64, error) {
 	if ss == "" {
 		return 0, nil
 	}
-	if ss == "-0" {
+	if ss[0] == '-' && strings.Trim(ss[1:], "0") == "" {
+		// "-0", "-00", ...: negative zero is not an integer value
 		return 0, strconv.ErrSyntax
 	}
 	if base := radixPrefix(ss); base != 0 {
